@@ -13,10 +13,12 @@ import (
 	"math/rand"
 	"os"
 	"path/filepath"
+	"runtime"
 	"runtime/debug"
 	"sort"
 	"strings"
 	"sync"
+	"time"
 )
 
 // Root of the verification tree (where evidence/, replay/ and
@@ -346,6 +348,75 @@ func Guard(f func()) (panicked bool, msg string, stack string) {
 	}()
 	f()
 	return
+}
+
+// LiveTrigger is how long GuardLive waits before it looks at the state of the
+// process. It is a trigger, not a verdict: what decides is the state found.
+var LiveTrigger = 10 * time.Second
+
+// GuardLive runs f like Guard, in a goroutine of its own, and recognises a call
+// that can never return: the goroutine running f is waiting for a lock inside
+// llir/llvm, its stack is the same in two looks two seconds apart, and every
+// other goroutine that is inside llir/llvm is waiting for a lock as well, so
+// nobody is left who could release one (the library's locks are taken and
+// released by library code only). hung is then true and witness holds the
+// stack; the goroutine is abandoned. Any other state (a slow machine, a
+// blocked destination) is waited for: the driver's case watchdog, whose firing
+// is inconclusive, bounds that.
+func GuardLive(f func()) (panicked bool, msg string, stack string, hung bool, witness string) {
+	done := make(chan struct{})
+	go func() {
+		defer close(done)
+		panicked, msg, stack = Guard(f)
+	}()
+	look := func() (string, bool) {
+		buf := make([]byte, 4<<20)
+		buf = buf[:runtime.Stack(buf, true)]
+		mine, othersFree := "", false
+		for _, g := range strings.Split(string(buf), "\n\n") {
+			if strings.Contains(g, "runtime.Stack") {
+				continue
+			}
+			head := g
+			if i := strings.Index(g, "\n"); i >= 0 {
+				head = g[:i]
+			}
+			waits := strings.Contains(head, "sync.Mutex.Lock") || strings.Contains(head, "sync.RWMutex") || strings.Contains(head, "semacquire")
+			inLib := strings.Contains(g, "github.com/llir/llvm/")
+			switch {
+			case strings.Contains(g, "fw.GuardLive.func1"):
+				if waits && inLib {
+					// drop the header (it carries the waiting time) so that two looks compare
+					mine = g[len(head):]
+				}
+			case inLib && !waits:
+				othersFree = true
+			}
+		}
+		return mine, mine != "" && !othersFree
+	}
+	t := time.NewTimer(LiveTrigger)
+	defer t.Stop()
+	for {
+		select {
+		case <-done:
+			return
+		case <-t.C:
+			a, okA := look()
+			if okA {
+				select {
+				case <-done:
+					return
+				case <-time.After(2 * time.Second):
+				}
+				b, okB := look()
+				if okB && a == b {
+					return false, "", "", true, Trunc(a, 3000)
+				}
+			}
+			t.Reset(LiveTrigger)
+		}
+	}
 }
 
 // ShortHash returns a short hex digest of s.
